@@ -23,7 +23,33 @@ let response_errors (evs : string list) : (string * string) list =
          | _ -> None)
     | _ -> None) evs
 
+(* both ends are the package: a call (plain, then compressed, then plain again) naming a protocol or method nobody
+   registered.  Each must be answered with the same not-found error, and the connection must go on working. *)
+let run_e2e toks obs =
+  match toks with
+  | "e2e" :: id :: rest ->
+      let k = parse_kv rest in
+      (match Hashtbl.find_opt obs id with
+       | None -> Printf.sprintf "MISMATCH %s no-observation" id
+       | Some ot ->
+           let okv = parse_kv (List.tl (List.tl ot)) in
+           if kv "panic" okv <> "" then Printf.sprintf "PROPFAIL %s sig=panic a call naming an unregistered method panicked: %s" id (kv "panic" okv)
+           else if kv "setup" okv <> "" then Printf.sprintf "MISMATCH %s could not set up a loopback pair: %s" id (kv "setup" okv)
+           else begin
+             let plain = kv "plain" okv and comp = kv "comp" okv and follow = kv "followup" okv in
+             let is_nf s = contains s "not found" || contains s "notfound" || contains s "6e6f7420666f756e64" in
+             if not (is_nf plain) then
+               Printf.sprintf "PROPFAIL %s sig=not-found-not-answered:e2e a call naming an unregistered %s was answered %s" id (kv "method" k) plain
+             else if comp <> plain then
+               Printf.sprintf "PROPFAIL %s sig=not-found-not-answered:e2e-compressed:ctype-%s a compressed call naming an unregistered %s returned %s, the same call uncompressed %s" id (kv "ctype" k) (kv "method" k) comp plain
+             else if follow <> plain then
+               Printf.sprintf "PROPFAIL %s sig=anomaly-disturbs-traffic:e2e after a compressed not-found call the next call on the connection returned %s instead of %s" id follow plain
+             else Printf.sprintf "AGREE %s nontrivial" id
+           end)
+  | _ -> "SKIP"
+
 let run_case toks obs =
+  match toks with "e2e" :: _ -> run_e2e toks obs | _ ->
   C13.with_trace toks obs (fun id k evs tr ->
     if not (c07_lifecycle tr) then
       Printf.sprintf "PROPFAIL %s sig=%s Done / IsConnected / Err disagree, the transport came back to life, or the error changed after Done closed" id
